@@ -212,7 +212,7 @@ def run(tier, seed):
     res.jobs.extend(rjobs)
     # ---------------- (c) API closure ----------------
     api_cfg_names = ['none', 'SSE2', 'SSE4_1', 'AVX2', 'F', 'F+BW', 'F+VL', 'F+VL+BW', 'F+DQ', 'F+VL+CD', 'F+VL+BW+DQ+CD', 'ALL'] if tier == 'quick' else None
-    api_cfgs = [configs.parse(n) for n in api_cfg_names] if api_cfg_names else [c for c in configs.thorough_lattice()]
+    api_cfgs = [configs.parse(n) for n in api_cfg_names] if api_cfg_names else [c for c in configs.thorough_lattice_small()]
     ajobs = []
     for i, c in enumerate(api_cfgs):
         comp, std = ('g++', 11)
@@ -226,7 +226,7 @@ def run(tier, seed):
         # unoptimised (debug) builds: every odr-use is materialised, e.g. binding the in-class `static constexpr width` to a
         # reference parameter needs an out-of-class definition before C++17 and only fails to link at -O0
         if tier == 'thorough' or configs.name(c) in ('none', 'SSE2', 'AVX2', 'F+BW+VL', 'ALL'):
-            o0 = [('g++', 11)] + ([('clang++', 14)] if (tier == 'thorough' or configs.name(c) in ('AVX2', 'F+BW+VL')) else [])
+            o0 = [('g++', 11)] + ([('clang++', 14)] if ((tier == 'thorough' and i % 3 == 0) or configs.name(c) in ('AVX2', 'F+BW+VL')) else [])
             for comp0, std0 in o0:
                 for p in range(1, 7):
                     ajobs.append(Job('c19_api.cpp', c, comp0, std0, 'o0', p, cflags_override=['-O0']))
